@@ -1,6 +1,7 @@
 (* Proofs for C31 (segment operations identify segments by instant). *)
 From Coq Require Import List ZArith Bool Lia ZifyBool.
-Require Import MTX.Lib.Civil MTX.Model.C26_RecPath MTX.Proofs.C26_RecPath MTX.Model.C31_DeleteSeg.
+Require Import MTX.Lib.Civil MTX.Model.C26_RecPath MTX.Proofs.C26_RecPath MTX.Model.C26_Zone MTX.Proofs.C26_Zone
+               MTX.Model.C31_DeleteSeg.
 Import ListNotations.
 Local Open Scope Z_scope.
 
@@ -47,30 +48,39 @@ Proof.
   cbn [mtch] in H. rewrite !app_nil_r in H. exact H.
 Qed.
 
-(* decode_caps_of of C26 for a format whose %path has been substituted: the path comes back empty *)
-Lemma decode_caps_of_nopath loff ts p t :
-  has TPath ts = false -> identifies ts = true -> encodable loff ts t = true ->
-  decode_caps loff (caps_of p t ts) = ([], fst (trunc_start ts t), snd (trunc_start ts t)).
+(* the name the recorder writes under a substituted format matches with the captures Encode wrote *)
+Lemma nopath_match g t : no_stray (tokenize g) = true -> no_path (tokenize g) = true ->
+  enc_ranges (tokenize g) t = true ->
+  mtch true (tokenize g) (encode_go g [] t) = Some (caps_of [] t (tokenize g)).
 Proof.
-  intros Hp Hid He. unfold decode_caps, trunc_start. cbn [fst snd]. cbv zeta.
-  rewrite !(num_of_caps loff) by (try assumption; reflexivity).
-  rewrite !cap_of_caps by reflexivity. rewrite Hp. cbn [tok_text tok_val].
-  destruct (encodable_parts _ _ _ He) as (Hns & Hy & Hs & Hz & Hnz).
-  assert (Hmic : (if has Tf ts then i_ns t / 1000 else 0) * 1000 = if has Tf ts then i_ns t / 1000 * 1000 else 0)
-    by (destruct (has Tf ts); lia).
-  rewrite Hmic.
-  destruct (has Ts ts) eqn:Hts.
-  - specialize (Hs eq_refl). destruct (Z.ltb_spec 0 (i_unix t)); [reflexivity|lia].
-  - change (0 <? -1) with false. cbv iota.
-    unfold identifies in Hid. rewrite Hts in Hid. cbn [orb] in Hid. unfold has_civil in Hid.
-    repeat rewrite andb_true_iff in Hid. destruct Hid as (((((H1 & H2) & H3) & H4) & H5) & H6).
-    rewrite H1, H2, H3, H4, H5, H6.
-    assert (Hoff : (match (if has Tz ts then Some (zone_text (i_off t)) else None) with
-                    | Some z => zone_off z | None => loff end) = i_off t).
-    { destruct (has Tz ts) eqn:Hhz.
-      - destruct (Hz eq_refl) as [Hm Hb]. apply zone_off_text; assumption.
-      - destruct (Hnz eq_refl) as [Hx|Hx]; [congruence|now symmetry]. }
-    rewrite Hoff. rewrite (civil_of_unix_date (i_unix t) (i_off t)). reflexivity.
+  intros Hs Hn Hr. rewrite encode_go_tokens; [|exact Hs|constructor]. unfold encode.
+  exact (mtch_nopath (i_off t) _ [] t Hn (enc_ranges_encodable _ _ Hr)).
+Qed.
+
+(* ... and is recognised, in any local zone, with the Start time.Date gives, provided that Start
+   shows the wall-clock reading that was written *)
+Theorem roundtrip_nopath_wall L g t :
+  no_stray (tokenize g) = true -> no_path (tokenize g) = true -> identifies (tokenize g) = true ->
+  enc_ranges (tokenize g) t = true ->
+  (has Tz (tokenize g) = false ->
+   decoded_unix L (tokenize g) t + lz_at L (decoded_unix L (tokenize g) t) = i_unix t + i_off t) ->
+  decode_lz L g (encode_go g [] t) =
+  Some ([], decoded_unix L (tokenize g) t, snd (trunc_start (tokenize g) t)).
+Proof.
+  intros Hs Hn Hid Hr Hw. apply decode_lz_of_match; try assumption; [constructor|exact (nopath_match g t Hs Hn Hr)|].
+  intros _. reflexivity.
+Qed.
+
+Theorem roundtrip_nopath_lz L g t :
+  no_stray (tokenize g) = true -> no_path (tokenize g) = true -> identifies (tokenize g) = true ->
+  encodable_lz L (tokenize g) t = true ->
+  decode_lz L g (encode_go g [] t) =
+  Some ([], fst (trunc_start (tokenize g) t), snd (trunc_start (tokenize g) t)).
+Proof.
+  intros Hs Hn Hid He. destruct (encodable_lz_parts _ _ _ He) as [Hr Hz].
+  rewrite (roundtrip_nopath_wall L g t Hs Hn Hid Hr).
+  - rewrite (decoded_unix_encodable _ _ _ He). reflexivity.
+  - intros Hhz. rewrite (decoded_unix_encodable _ _ _ He). destruct (Hz Hhz) as [Ha _]. lia.
 Qed.
 
 (* the name the recorder writes under a substituted format is recognised with its start *)
@@ -79,13 +89,7 @@ Theorem roundtrip_nopath loff g t :
   encodable loff (tokenize g) t = true ->
   decode loff g (encode_go g [] t) =
   Some ([], fst (trunc_start (tokenize g) t), snd (trunc_start (tokenize g) t)).
-Proof.
-  intros Hs Hn Hid He.
-  rewrite encode_go_tokens; [|exact Hs|constructor].
-  unfold decode, decode_toks, encode.
-  rewrite (mtch_nopath loff _ [] t Hn He).
-  rewrite (decode_caps_of_nopath loff _ [] t (no_path_has _ Hn) Hid He). reflexivity.
-Qed.
+Proof. intros. unfold decode. apply roundtrip_nopath_lz; assumption. Qed.
 
 (* Encode depends on the nanoseconds only through %f, i.e. through the microseconds *)
 Lemma render_trunc ts p u n off :
@@ -118,7 +122,7 @@ Theorem agrees_with_listing zone loff g u0 n0 :
 Proof.
   intros ts t0 Hs Hn Hid He.
   exists (fst (trunc_start ts t0)), (snd (trunc_start ts t0)).
-  unfold listed_start, recorded_name. fold t0.
+  unfold listed_start, listed_start_lz, recorded_name. fold t0. fold (decode loff g (encode_go g [] t0)).
   rewrite (roundtrip_nopath loff g t0 Hs Hn Hid He). fold ts.
   split; [reflexivity|]. split; [destruct (trunc_start ts t0); reflexivity|].
   intros off. unfold delete_target, to_local. cbn [i_unix i_ns].
@@ -143,6 +147,132 @@ Proof.
   destruct (trunc_start ts (to_local zone req)), (trunc_start ts (mkI u0 n0 (zone u0))).
   cbn [fst snd] in R2. congruence.
 Qed.
+
+(* ---------------------------------------------------------------- any local zone; zone tables *)
+
+(* delete names the recorded file as soon as the requested instant shows, in the server zone, the
+   wall-clock reading (and microseconds / offset / Unix time, where the format has them) of the recording *)
+Lemma delete_same_reading zone g u n u0 n0 off :
+  no_stray (tokenize g) = true ->
+  u + zone u = u0 + zone u0 -> (has Tf (tokenize g) = true -> n / 1000 = n0 / 1000) ->
+  (has Tz (tokenize g) = true -> zone u = zone u0) -> (has Ts (tokenize g) = true -> u = u0) ->
+  delete_target zone g (mkI u n off) = recorded_name zone g u0 n0.
+Proof.
+  intros Hs Hw Hf Hz Hu. unfold delete_target, recorded_name, to_local. cbn [i_unix i_ns].
+  rewrite !encode_go_tokens by (try exact Hs; constructor). unfold encode. apply render_ext.
+  apply tok_text_same; cbn [i_unix i_ns i_off]; assumption.
+Qed.
+
+(* Listing and deletion agree on the FILE for every recording, in every local zone in which time.Date
+   returns an instant showing the reading it was given: the listing reports the Start time.Date gives,
+   and that Start, written with any offset, makes delete name exactly the recorded file. *)
+Theorem agrees_on_file_lz L g u0 n0 :
+  let ts := tokenize g in
+  let t0 := mkI u0 n0 (lz_at L u0) in
+  no_stray ts = true -> no_path ts = true -> identifies ts = true -> enc_ranges ts t0 = true ->
+  (has Tz ts = false -> decoded_unix L ts t0 + lz_at L (decoded_unix L ts t0) = u0 + lz_at L u0) ->
+  exists u n, listed_start_lz L g (recorded_name (lz_at L) g u0 n0) = Some (u, n)
+              /\ u = decoded_unix L ts t0 /\ n = snd (trunc_start ts t0)
+              /\ forall off, delete_target (lz_at L) g (mkI u n off) = recorded_name (lz_at L) g u0 n0.
+Proof.
+  intros ts t0 Hs Hn Hid Hr Hw.
+  exists (decoded_unix L ts t0), (snd (trunc_start ts t0)).
+  unfold listed_start_lz, recorded_name. fold t0.
+  rewrite (roundtrip_nopath_wall L g t0 Hs Hn Hid Hr Hw). fold ts.
+  split; [reflexivity|]. split; [reflexivity|]. split; [reflexivity|].
+  intros off.
+  assert (Hdu : has Tz ts = true \/ has Ts ts = true -> decoded_unix L ts t0 = u0).
+  { unfold decoded_unix. subst t0. cbn [i_unix i_off]. intros [E|E].
+    - rewrite E. destruct (has Ts ts); lia.
+    - rewrite E. reflexivity. }
+  apply delete_same_reading; fold ts.
+  - exact Hs.
+  - destruct (has Tz ts) eqn:Hz; [rewrite (Hdu (or_introl eq_refl)); reflexivity|exact (Hw eq_refl)].
+  - intros HTf. unfold trunc_start. cbn [snd]. rewrite HTf. subst t0. cbn [i_ns]. apply Z.div_mul. lia.
+  - intros Hz. rewrite (Hdu (or_introl Hz)). reflexivity.
+  - intros E. exact (Hdu (or_intror E)).
+Qed.
+
+(* ... and on the INSTANT whenever time.Date maps the reading back to the offset in force *)
+Theorem agrees_with_listing_lz L g u0 n0 :
+  let ts := tokenize g in
+  let t0 := mkI u0 n0 (lz_at L u0) in
+  no_stray ts = true -> no_path ts = true -> identifies ts = true -> encodable_lz L ts t0 = true ->
+  exists u n, listed_start_lz L g (recorded_name (lz_at L) g u0 n0) = Some (u, n)
+              /\ (u, n) = trunc_start ts t0
+              /\ forall off, delete_target (lz_at L) g (mkI u n off) = recorded_name (lz_at L) g u0 n0.
+Proof.
+  intros ts t0 Hs Hn Hid He. destruct (encodable_lz_parts _ _ _ He) as [Hr Hz].
+  pose proof (decoded_unix_encodable _ _ _ He) as Hd. fold ts t0 in Hd.
+  assert (Hw : has Tz ts = false -> decoded_unix L ts t0 + lz_at L (decoded_unix L ts t0) = u0 + lz_at L u0).
+  { intros _. rewrite Hd. subst t0. reflexivity. }
+  destruct (agrees_on_file_lz L g u0 n0 Hs Hn Hid Hr Hw) as (u & n & Hl & Hu & Hnn & Hdel).
+  exists u, n. split; [exact Hl|]. split; [|exact Hdel].
+  fold ts t0 in Hu, Hnn. rewrite Hu, Hnn, Hd. unfold trunc_start. subst t0. reflexivity.
+Qed.
+
+Section ZoneTable.
+  Variable B : Z.
+  Variable z : zone.
+  Hypothesis Hok : zone_ok B z = true.
+
+  (* in a zone-database zone: for EVERY recording (repeated hours included) listing and deletion agree
+     on the file, and the listed Start shows the same wall-clock reading as the recording *)
+  Theorem agrees_on_file_zone g u0 n0 :
+    let ts := tokenize g in
+    let t0 := local_instant z u0 n0 in
+    no_stray ts = true -> no_path ts = true -> identifies ts = true -> enc_ranges ts t0 = true ->
+    exists u n, listed_start_lz (lz_of_zone z) g (recorded_name (offset_at z) g u0 n0) = Some (u, n)
+                /\ u + offset_at z u = u0 + offset_at z u0 /\ n = snd (trunc_start ts t0)
+                /\ forall off, delete_target (offset_at z) g (mkI u n off) = recorded_name (offset_at z) g u0 n0.
+  Proof.
+    intros ts t0 Hs Hn Hid Hr.
+    assert (Hwall : decoded_unix (lz_of_zone z) ts t0 + offset_at z (decoded_unix (lz_of_zone z) ts t0)
+                    = u0 + offset_at z u0).
+    { unfold decoded_unix. subst t0. cbn [local_instant i_unix i_off lz_of_zone lz_date].
+      destruct (has Ts ts); [reflexivity|]. destruct (has Tz ts).
+      - replace (u0 + offset_at z u0 - offset_at z u0) with u0 by lia. reflexivity.
+      - exact (zone_date_same_wall B z Hok u0). }
+    destruct (agrees_on_file_lz (lz_of_zone z) g u0 n0 Hs Hn Hid Hr (fun _ => Hwall)) as (u & n & Hl & Hu & Hnn & Hdel).
+    exists u, n. split; [exact Hl|]. split; [|split; [exact Hnn|exact Hdel]].
+    rewrite Hu. exact Hwall.
+  Qed.
+
+  (* ... and on the instant for every recording outside the repeated hours, whatever the format *)
+  Theorem agrees_with_listing_zone g u0 n0 :
+    let ts := tokenize g in
+    let t0 := local_instant z u0 n0 in
+    no_stray ts = true -> no_path ts = true -> identifies ts = true -> enc_ranges ts t0 = true ->
+    in_repeat (lookup z) u0 = false ->
+    exists u n, listed_start_lz (lz_of_zone z) g (recorded_name (offset_at z) g u0 n0) = Some (u, n)
+                /\ (u, n) = trunc_start ts t0
+                /\ forall off, delete_target (offset_at z) g (mkI u n off) = recorded_name (offset_at z) g u0 n0.
+  Proof.
+    intros ts t0 Hs Hn Hid Hr Hrep.
+    exact (agrees_with_listing_lz (lz_of_zone z) g u0 n0 Hs Hn Hid (encodable_zone B z Hok ts u0 n0 Hr Hrep)).
+  Qed.
+
+  (* a request names the recorded file only for the recorded instant (format precision), both outside the repeated hours *)
+  Theorem only_that_instant_zone g req u0 n0 :
+    let ts := tokenize g in
+    no_stray ts = true -> no_path ts = true -> identifies ts = true ->
+    enc_ranges ts (to_local (offset_at z) req) = true -> enc_ranges ts (local_instant z u0 n0) = true ->
+    in_repeat (lookup z) (i_unix req) = false -> in_repeat (lookup z) u0 = false ->
+    delete_target (offset_at z) g req = recorded_name (offset_at z) g u0 n0 ->
+    trunc_start ts (to_local (offset_at z) req) = trunc_start ts (local_instant z u0 n0).
+  Proof.
+    intros ts Hs Hn Hid Hr1 Hr2 Hp1 Hp2 Heq. unfold delete_target, recorded_name in Heq.
+    pose proof (roundtrip_nopath_lz (lz_of_zone z) g _ Hs Hn Hid
+                  (encodable_zone B z Hok ts (i_unix req) (i_ns req) Hr1 Hp1)) as R1.
+    pose proof (roundtrip_nopath_lz (lz_of_zone z) g _ Hs Hn Hid (encodable_zone B z Hok ts u0 n0 Hr2 Hp2)) as R2.
+    unfold local_instant in R1 at 1. unfold to_local in Heq. rewrite Heq in R1.
+    unfold local_instant in R2 at 1. rewrite R1 in R2. fold ts in R2.
+    unfold to_local.
+    change (mkI (i_unix req) (i_ns req) (offset_at z (i_unix req))) with (local_instant z (i_unix req) (i_ns req)).
+    destruct (trunc_start ts (local_instant z (i_unix req) (i_ns req))), (trunc_start ts (local_instant z u0 n0)).
+    cbn [fst snd] in R2. congruence.
+  Qed.
+End ZoneTable.
 
 (* ---------------------------------------------------------------- the code before 555d196 *)
 
